@@ -130,6 +130,32 @@ def job(j):
             st["n"] += 1
             flag({"type": w.types[ti - 1], "ti": ti}, way, q, variables, expect_not_delivered(w, resp, "e%d" % ti, way), resp)
 
+    def looser_variable_ways(w):
+        """a variable whose type is looser than the argument's (nullable items for non-null items, nullable for non-null without any
+        default) used DIRECTLY as the argument: never delivered - also when the variable or the argument has a default"""
+        idx = {render.typeref(t): i for i, t in enumerate(w.types, 1)}
+        for tys, field, vdef, variables in [
+                ("[Int!]", "e%d", "$x: [Int] = [1]", {"x": [1, None]}),
+                ("[Int!]!", "e%d", "$x: [Int] = [1]", {"x": [None]}),
+                ("[Int!]", "d%d", "$x: [Int]", {"x": [1, None]}),              # the ARGUMENT has a default (d<k>)
+                ("[[Int!]!]!", "e%d", "$x: [[Int]] = [[1]]", {"x": [[1, None]]}),
+                ("[E!]", "e%d", "$x: [E] = [X]", {"x": ["X", None]}),
+                ("[In1!]", "e%d", "$x: [In1] = []", {"x": [None]}),
+                ("Int!", "e%d", "$x: Int", {"x": None})]:
+            ti = idx[tys]
+            f = field % ti
+            for where in ("field", "directive"):
+                if where == "directive" and f.startswith("d"):
+                    continue
+                q = ("query (%s) { s %s(a: $x) }" % (vdef, f)) if where == "field" else ("query (%s) { s @p%d(a: $x) }" % (vdef, ti))
+                resp = w.run(q, variables)
+                st["n"] += 1
+                if where == "field":
+                    mm = expect_not_delivered(w, resp, f, "looser-variable-type")
+                else:
+                    mm = [] if (isinstance(resp, dict) and resp.get("errors") and not w.dcalls) else ["looser variable type (directive): hook ran / no error: %r %r" % (w.dcalls, resp)]
+                flag({"type": w.types[ti - 1], "ti": ti}, "variable-of-a-looser-type-" + where, q, variables, mm, resp)
+
     def null_nested_ways(w):
         """a null / absent variable at a non-null position inside a list or object literal is never delivered"""
         idx = {render.typeref(t): i for i, t in enumerate(w.types, 1)}
@@ -238,6 +264,7 @@ def job(j):
                 deep_ways(st["w"])
                 null_nested_ways(st["w"])
                 absent_nested_ways(st["w"])
+                looser_variable_ways(st["w"])
                 single_for_list_ways(st["w"])
             if cfg.endswith("_0.cfg"):
                 illtyped_ways(st["w"])
